@@ -578,6 +578,30 @@ class Gen:
             self.retired.add(first)
         return x
 
+    def step_chain(self):
+        """(op2 (op1 x ...) ...): the inner result is a temporary on the stack that nothing else refers to, the case in
+        which the real primitives do update in place.  The inner definition is marked `inline`: it is rendered at its
+        use instead of being bound to a variable (for S and for the driver it is an ordinary definition)."""
+        n0 = len(self.stmts)
+        x = self.step_op()
+        if x is None or len(self.stmts) != n0 + 1 or self.stmts[n0][0] != "def" or self.stmts[n0][1] != x:
+            return
+        k = kind(self.val_of(x))
+        cands = [o for o in self.OPS_BY_KIND.get(k, []) if o in UPDATES]
+        if not cands:
+            return
+        op = self.r.choice(cands)
+        atoms = self.args_for(op, x)
+        if atoms is None or any(a is None for a in atoms):
+            return
+        y = self.define(op, atoms, self.r.choice(["direct", "direct", "helper", "let", "lambda"]))
+        if y is None:
+            return
+        st = self.stmts[n0]
+        self.stmts[n0] = (st[0], st[1], st[2], st[3], "inline")
+        self.retired.add(x)
+        self.ops_used["nested-call"] = self.ops_used.get("nested-call", 0) + 1
+
     def step_keeper(self):
         lv = [n for n in self.live(compound=True) if self.names[n] in ("var", "mut")]
         if not lv:
@@ -730,7 +754,9 @@ class Gen:
                 self.step_kont()
                 continue
             c = r.random()
-            if c < 0.50:
+            if c < 0.18:
+                self.step_chain()
+            elif c < 0.50:
                 self.step_op()
             elif c < 0.62:
                 self.step_keeper()
@@ -832,10 +858,13 @@ def call_text(op, args):
     return "(%s%s)" % (tmpl, "".join(" " + a for a in args))
 
 
+_INLINE = {}
+
+
 def atom_text(a):
     t, x = a
     if t == "h":
-        return x
+        return _INLINE.get(x, x)
     if t == "c":
         return "(%s)" % x
     if t == "b":
@@ -871,12 +900,15 @@ def render_block(stmts, mode, printer, indent, tail=""):
 
     def cont(extra_tail=None):
         return render_block(rest, mode, printer, indent, tail if extra_tail is None else extra_tail)
+    if k == "def" and st[4] == "inline":
+        _INLINE[st[1]] = expr_text(st[2], st[3], "direct")
+        return cont()
     if k in ("def", "loop", "recv", "clo", "box", "kont"):
         if k == "def":
             name, e = st[1], expr_text(st[2], st[3], st[4])
         elif k == "loop":
             name = st[1]
-            e = "(let loop ((i 0) (acc %s)) (if (< i %d) (loop (+ i 1) %s) acc))" % (st[3], st[4], LOOP_STEEL[st[2]])
+            e = "(let loop ((i 0) (acc %s)) (if (< i %d) (loop (+ i 1) %s) acc))" % (atom_text(("h", st[3])), st[4], LOOP_STEEL[st[2]])
         elif k == "recv":
             name, e = st[1], "(channel/recv (channels-receiver %s))" % st[2]
         elif k == "box":
@@ -935,6 +967,7 @@ def helper_ops(block, acc):
 
 
 def render(prog):
+    _INLINE.clear()
     mode = prog["layout"]
     mp = lambda tag, a: '(P "%s" %s)' % (tag, a)   # noqa: E731
     out = [PRELUDE, helpers(helper_ops(prog["main"], set()))]
